@@ -64,3 +64,65 @@ theorem tornCheckpoint_witness :
     recover (crash (tornAfterPages s)) = [("t", [(1, 10), (1, 10)])] := by decide
 
 end AxVerif.Recovery
+
+namespace AxVerif.Recovery
+open AxVerif AxVerif.Durable
+
+/-! ### the shipped, non-atomic checkpoint: safe everywhere except inside its window -/
+
+/-- simulation relation between the split-checkpoint machine and the atomic one -/
+def Sim (x : St2) (s : St) : Prop :=
+  (x.torn = false → x.s = s) ∧ (x.torn = true → s = { stable := x.s.stable, log := [], buf := [] })
+
+theorem sim_step (x : St2) (s : St) (e : Ev2) (h : Sim x s) :
+    Sim (step2 x e) ((emit x e).foldl step s) := by
+  obtain ⟨h0, h1⟩ := h
+  cases ht : x.torn with
+  | false =>
+    have hs := h0 ht
+    subst hs
+    cases e with
+    | append r => simp [step2, emit, ht, Sim]
+    | force => simp [step2, emit, ht, Sim]
+    | ack t => simp [step2, emit, ht, Sim, step]
+    | ckptTruncate => simp [step2, emit, ht, Sim]
+    | ckptPages =>
+      by_cases hq : quiescent (x.s.log ++ x.s.buf) = true
+      · simp [step2, emit, ht, Sim, step, hq]
+      · simp [step2, emit, ht, Sim, step, hq]
+  | true =>
+    have hs := h1 ht
+    cases e with
+    | append r => simp [step2, emit, ht, Sim, hs]
+    | force => simp [step2, emit, ht, Sim, hs]
+    | ack t => simp [step2, emit, ht, Sim, step, hs]
+    | ckptPages => simp [step2, emit, ht, Sim, hs]
+    | ckptTruncate => simp [step2, emit, ht, Sim, hs]
+
+theorem sim_run (es : List Ev2) (x : St2) (s : St) (h : Sim x s) :
+    Sim (es.foldl step2 x) ((glueFrom x es).foldl step s) := by
+  induction es generalizing x s with
+  | nil => simpa [glueFrom] using h
+  | cons e es ih =>
+    simp only [List.foldl_cons, glueFrom, List.foldl_append]
+    exact ih _ _ (sim_step x s e h)
+
+/-- **Outside the checkpoint window the shipped checkpoint is as good as an atomic one**: whenever the split machine
+    is not between a checkpoint's page writes and its log truncation, crash + recovery yields the redo of the durable
+    history of the corresponding atomic trace — for every trace, with any number of checkpoints. -/
+theorem split_checkpoint_safe_outside_window (es : List Ev2) (hw : WfRecs (appended (glue es)))
+    (hn : (run2 es).torn = false) :
+    recover (crash (run2 es).s) = replay [] (durable (glue es)) := by
+  have hsim := sim_run es { s := init, torn := false } init ⟨fun _ => rfl, fun h => by cases h⟩
+  have : (run2 es).s = run (glue es) := hsim.1 hn
+  rw [this]
+  exact recover_crash_eq_replay_durable _ hw
+
+/-- Inside the window it is not: see `tornCheckpoint_witness`; here the same on the split machine. -/
+theorem split_checkpoint_torn_witness :
+    let es := [Ev2.append (.op 1 (.crt "t")), .append (.commit 1), .force, .ckptPages, .ckptTruncate,
+               .append (.op 2 (.ins "t" 1 10)), .append (.commit 2), .ckptPages]
+    (run2 es).torn = true ∧ recover (crash (run2 es).s) = [("t", [(1, 10), (1, 10)])] ∧
+    recover (crash (run2 (es ++ [.ckptTruncate])).s) = [("t", [(1, 10)])] := by decide
+
+end AxVerif.Recovery
